@@ -1,11 +1,15 @@
 package main
 
 import (
+	"archive/tar"
+	"archive/zip"
+	"bytes"
 	"context"
 	"fmt"
 	"io"
 	"os"
 	"path/filepath"
+	"sort"
 	"sync/atomic"
 	"syscall"
 
@@ -523,5 +527,111 @@ func (m *monitor) runUnknownSizeFiles() {
 				}
 			}
 		}
+	}
+}
+
+// ---- files of the read-only archive views -------------------------------------------------------------
+//
+// "On every filesystem backend": the tar and zip views are backends too. Their files are hashed on a fresh view, after a
+// handle on the same file sniffed a few bytes and was closed, after a full read through another handle, and after a
+// calculation which was cancelled before it began.
+func (m *monitor) runArchiveViews() {
+	osfs := filesystem.NewStandardFileSystem()
+	dir := filepath.Join(m.scratch, "views")
+	_ = os.MkdirAll(dir, 0o755)
+	contents := map[string][]byte{}
+	for i, n := range []int{1, 15, 17, 4096, 32768 + 5, 100_003} {
+		contents[fmt.Sprintf("d/f%d.bin", i)] = m.bytesOf(contentSpec{Kind: "prng", Len: n, Idx: 9100 + i})
+	}
+	var names []string
+	for n := range contents {
+		names = append(names, n)
+	}
+	sort.Strings(names)
+	// the archives
+	var tb bytes.Buffer
+	tw := tar.NewWriter(&tb)
+	_ = tw.WriteHeader(&tar.Header{Name: "d/", Typeflag: tar.TypeDir, Mode: 0o755})
+	for _, n := range names {
+		_ = tw.WriteHeader(&tar.Header{Name: n, Typeflag: tar.TypeReg, Mode: 0o644, Size: int64(len(contents[n]))})
+		_, _ = tw.Write(contents[n])
+	}
+	_ = tw.Close()
+	tarPath := filepath.Join(dir, "tree.tar")
+	if err := os.WriteFile(tarPath, tb.Bytes(), 0o644); err != nil {
+		m.r.Inconclusive("archive views: cannot write the tar")
+		return
+	}
+	var zb bytes.Buffer
+	zw := zip.NewWriter(&zb)
+	for _, n := range names {
+		w, _ := zw.Create(n)
+		_, _ = w.Write(contents[n])
+	}
+	_ = zw.Close()
+	zipPath := filepath.Join(dir, "tree.zip")
+	if err := os.WriteFile(zipPath, zb.Bytes(), 0o644); err != nil {
+		m.r.Inconclusive("archive views: cannot write the zip")
+		return
+	}
+	for _, kind := range []string{"tar", "zip"} {
+		var view filesystem.ICloseableFS
+		var err error
+		if kind == "tar" {
+			view, _, err = filesystem.NewTarFileSystem(osfs, tarPath, filesystem.NoLimits())
+		} else {
+			view, _, err = filesystem.NewZipFileSystem(osfs, zipPath, filesystem.NoLimits())
+		}
+		if err != nil {
+			m.r.Inconclusive("archive views: the " + kind + " view could not be opened")
+			continue
+		}
+		for ai, a := range algos {
+			for ni, n := range names {
+				p := "/" + n
+				want := a.Ref(contents[n])
+				pre := []string{"fresh view", "a handle sniffed 16 bytes and was closed", "another handle read the file in full", "a calculation cancelled before it began"}[(ai+ni)%4]
+				switch (ai + ni) % 4 {
+				case 1:
+					if h, e := view.GenericOpen(p); e == nil {
+						_, _ = io.ReadFull(h, make([]byte, 16))
+						_ = h.Close()
+					}
+				case 2:
+					if h, e := view.GenericOpen(p); e == nil {
+						_, _ = io.Copy(io.Discard, h)
+						_ = h.Close()
+					}
+				case 3:
+					ctx, cancel := context.WithCancel(context.Background())
+					cancel()
+					_, _ = view.FileHashWithContext(ctx, a.Name, p)
+				}
+				for _, ep := range []string{"FS.FileHash", "IFileHash.CalculateFile"} {
+					var got string
+					var err error
+					if ep == "FS.FileHash" {
+						got, err = view.FileHash(a.Name, p)
+					} else if fh, e := filesystem.NewFileHash(a.Name); e == nil && fh != nil {
+						got, err = fh.CalculateFile(view, p)
+					} else {
+						continue
+					}
+					m.r.CaseN(fmt.Sprintf("archive-view|%s|%s|%s|%s|%s", kind, n, a.Name, ep, pre), true, 1)
+					m.viewDigests.Add(1)
+					m.r.ObsSet("file_entry_points_by_backend", kind+" view/"+ep)
+					if err != nil {
+						m.r.Inconclusive("hashing a file of an archive view returned an error: outside the property")
+						continue
+					}
+					if got != want {
+						m.r.Violation(vrun.Sig{"ep": "FileHash", "pre": pre, "effect": "wrong digest", "backend": kind + " view"},
+							fmt.Sprintf("%s %s(%s view, %s, %d bytes; %s) = %s, reference of its bytes %s", a.Name, ep, kind, n, len(contents[n]), pre, got, want),
+							map[string]any{"backend": kind + " view", "path": n, "algorithm": a.Name, "entry_point": ep, "history": pre, "got": got, "want": want})
+					}
+				}
+			}
+		}
+		_ = view.Close()
 	}
 }
